@@ -1,8 +1,8 @@
 (** C10 - Dictionary export and import are faithful inverses of each other.
     Only statements; proofs are [exact <lemma>]. *)
 Require Import AT.Model.Base AT.Model.DictIO AT.Spec.DictSpec.
-Require AT.Proofs.DictProofs.
-Import AT.Proofs.DictProofs.
+Require AT.Proofs.DictProofs AT.Proofs.DictIters.
+Import AT.Proofs.DictProofs AT.Proofs.DictIters.
 
 (** export with the default attriter/childiter: for each exported node all of
     its instance attributes except the tree bookkeeping (the skip list is the
@@ -15,6 +15,22 @@ Theorem C10_export_structural : forall ml t, wf_itree t ->
 Proof. intros ml t W. unfold export. apply export_structural; [exact W|apply Nat.lt_succ_diag_r]. Qed.
 Print Assumptions C10_export_structural.
 
+(** attriter, childiter (any function that selects / reorders the children it
+    is given) and maxlevel are honoured at every level: the result is the
+    structural image of [exported] - childiter applied to the children of every
+    exported node, attriter and the dictionary constructor to its attributes,
+    nothing below maxlevel; the recursion never runs out of its fuel *)
+Theorem C10_export_iterators : forall attriter childiter ml t,
+  (forall l c, In c (childiter l) -> In c l) ->
+  export attriter childiter ml t = Ok (to_dtree (exported attriter childiter ml (S (iheight t)) 1 t)).
+Proof. intros a c ml t H. unfold export. apply export_iters; [exact H|apply Nat.lt_succ_diag_r]. Qed.
+Print Assumptions C10_export_iterators.
+(** 'children' is present only when non-empty, for all iterators *)
+Theorem C10_no_empty_children : forall attriter childiter ml t d,
+  (forall l c, In c (childiter l) -> In c l) ->
+  export attriter childiter ml t = Ok d -> strip d = d.
+Proof. exact export_no_empty_children. Qed.
+Print Assumptions C10_no_empty_children.
 (** import_(export(t)) is isomorphic to t (cut at maxlevel): same shape, child
     order and attributes *)
 Theorem C10_import_export : forall ml t, wf_itree t ->
